@@ -9,6 +9,10 @@ INFO = {
             "technique": "contract-based deductive verification: pyvc VCs from the real deterministic_choice body + lemmas over its contract, z3/cvc5",
             "level_text": "full functional contract of deterministic_choice (membership, interval postcondition, exceptional postconditions, frame, delegation) proved for all arguments by z3 from VCs generated from the current source; equivalence lemmas proved over the contract",
             "level_note": _PROOF_NOTE},
+    "C08": {"engine": "rxvc+pyvc", "design_ref": "DESIGN.md 4/C08",
+            "technique": "contract-based verification of the lexer tables: pick languages of the live master-regex tables vs the documented scanner as regular-language emptiness obligations (complete DFA procedure) + pyvc contracts on the token functions",
+            "level_text": "for ALL texts: every ignored rule consumes only whitespace or one complete line comment, whitespace is always covered, the block-comment state ends exactly at the first */ and never errors, comment callbacks emit no token; decided by a complete procedure on the tables dumped from the live classes",
+            "level_note": _PROOF_NOTE + " sly's tokenize loop is an assumed contract (bounded differential against the documented scanner is the labelled stand-in)."},
     "C11": {"engine": "pyvc", "design_ref": "DESIGN.md 4/C11",
             "technique": "contract-based deductive verification: representation invariant with ghost state on the real recompile/__init__/__call__ bodies, state-after-exception and frame obligations, z3",
             "level_text": "every path of recompile / __init__ / __call__ / run_experiment / parse_source (incl. every exceptional path of every callee) is proved to preserve the invariant 'behaves like a fresh evaluator of the last accepted text', to leave the instance unchanged on any exception and to write only to its own instance; histories follow by induction (paper step); a bounded history exploration on the real class is the labelled stand-in",
@@ -23,7 +27,7 @@ NOT_APPLICABLE = {
     "C04": "statistical statement about MD5's output distribution over id families: MD5 is an uninterpreted function in every contract, no pre/postcondition expresses equidistribution or independence; sampling belongs to a different technique family. Its structural preconditions (salt is a prefix of the hashed key, whole key hashed, exact interval map) are proved under C12/C03.",
 }
 for _p, _why in {"C01": "links not yet built (generator/evaluator)", "C02": "links not yet built", "C03": "generator alignment link not yet built",
-                 "C05": "links not yet built", "C06": "links not yet built", "C07": "links not yet built", "C08": "lexer engine not yet built",
+                 "C05": "links not yet built", "C06": "links not yet built", "C07": "links not yet built", 
                  "C09": "generator link not yet built", "C10": "generator single-key link not yet built",                  "C12": "generator key link not yet built", "C13": "generator link not yet built", "C14": "generator link not yet built",
                  "C15": "generator key link not yet built", "C17": "effect scan not yet built"}.items():
     NOT_APPLICABLE.setdefault(_p, "not claimed yet (work in progress): " + _why)
